@@ -940,7 +940,8 @@ class Interp(object):
                     return False
                 got = set(frozenset((st.canon(p_), st.canon(q_))) for p_, q_ in pairs)
                 for pname, tp in (getattr(self, 'tracked_preds', None) or {}).items():
-                    if got == set(frozenset((st.canon(a_), st.canon(b_))) for a_, b_ in tp):
+                    # (a differing pair among some of the predicate's pairs - the address compared in two halves - settles it too)
+                    if got and got <= set(frozenset((st.canon(a_), st.canon(b_))) for a_, b_ in tp):
                         st.tags = dict(st.tags)
                         st.tags['pred:' + pname] = False
                 # "some byte pair differs" as a disequality of the two values the pairs are the bytes of
